@@ -28,6 +28,12 @@ def build(root, targets):
 
 def classify_crash(stderr_text, rc):
     t = stderr_text
+    m = re.search(r"assertion failed \"(.*?)\" file \"(.*?)\" line (\d+) function (\w+)", t)
+    if m:
+        return "assert:%s:%s" % (os.path.basename(m.group(2)), m.group(4)), m.group(0)
+    m = re.search(r"arguments to (\w+)\(\) were incorrect, assertion \"(.*?)\" failed", t)
+    if m:
+        return "check-failed:%s" % m.group(1), m.group(0)
     m = re.search(r"ERROR: AddressSanitizer: ([\w-]+)", t)
     if m:
         kind = m.group(1)
@@ -206,7 +212,10 @@ def match_known(known, prop, cls, detail):
             continue
         if k.get("property") != prop:
             continue
-        if k.get("class") and k["class"] != cls:
+        if k.get("class_re"):
+            if not re.search(k["class_re"], cls):
+                continue
+        elif k.get("class") and k["class"] != cls:
             continue
         sig = k.get("signature", "")
         if sig and not re.search(sig, detail or ""):
@@ -233,7 +242,7 @@ class Worker:
             cmd += ["--max-runs", str(spec["max_runs"])]
         if thorough:
             cmd.append("--thorough")
-        env = dict(os.environ, SIM_SCRATCH=scratch, SIM_KNOWN=KNOWN_IDS)
+        env = dict(os.environ, SIM_SCRATCH=scratch, SIM_KNOWN=KNOWN_IDS, SIM_OOMK_TRACE="1")
         self.errpath = os.path.join(scratch, "w%d.err" % slot)
         self.errf = open(self.errpath, "w")
         self.p = subprocess.Popen(cmd, cwd=root, env=env, stdout=subprocess.PIPE, stderr=self.errf, text=True, errors="replace")
@@ -253,10 +262,11 @@ def run_batch(root, spec, base_seed, budget, thorough, scratch, nworkers):
             if remaining < 1.0:
                 return
             with lock:
-                if len(agg["failures"]) >= 4:
+                if len(agg["failures"]) >= 8:      # distinct failure classes; repeats are only counted
                     return
             w = Worker(root, spec, slot, nworkers, base_seed, remaining, thorough, scratch, first_index)
             cur = None
+            curk = None
             nrun = 0
             fail_line = None
             # watchdog: a run that produces no result line for HANG_S seconds is a non-terminating run
@@ -274,8 +284,12 @@ def run_batch(root, spec, base_seed, budget, thorough, scratch, nworkers):
             for line in w.p.stdout:
                 last[0] = time.time()
                 line = line.rstrip("\n")
+                if line.startswith("OOMK "):
+                    curk = line.split()[1]
+                    continue
                 if line.startswith("RUN "):
                     cur = int(line.split()[1])
+                    curk = None
                     nrun += 1
                 elif line.startswith("OK "):
                     p = line.split()
@@ -316,16 +330,22 @@ def run_batch(root, spec, base_seed, budget, thorough, scratch, nworkers):
                 head, _, detail = fail_line.partition(" :: ")
                 p = head.split()
                 with lock:
-                    agg["failures"].append({"seed": int(p[1]), "cls": p[2], "hash": p[3], "detail": detail, "crash": False})
+                    agg["failed_runs"] = agg.get("failed_runs", 0) + 1
+                    if not any(f["cls"] == p[2] for f in agg["failures"]):
+                        agg["failures"].append({"seed": int(p[1]), "cls": p[2], "hash": p[3], "detail": detail, "crash": False})
             elif rc not in (0, 1):
                 with open(w.errpath, errors="replace") as f:
                     err = f.read()
                 cls, detail = classify_crash(err, rc)
+                if curk is not None:
+                    detail = "[oom.k=%s] %s" % (curk, detail)
                 if hung[0]:
                     cls, detail = "nonterminating", "the simulated run did not finish within %d s of real time (the code under test spins or blocks forever)" % HANG_S
                 with lock:
                     agg["runs"] += nrun
-                    agg["failures"].append({"seed": cur, "cls": cls, "hash": "", "detail": detail, "crash": True, "stderr": err[-6000:]})
+                    agg["failed_runs"] = agg.get("failed_runs", 0) + 1
+                    if not any(f["cls"] == cls for f in agg["failures"]):
+                        agg["failures"].append({"seed": cur, "cls": cls, "hash": "", "detail": detail, "crash": True, "stderr": err[-6000:]})
             else:
                 return   # clean end of budget
             first_index += nrun   # restart after the failing run
@@ -350,6 +370,21 @@ def handle_failure(root, spec, prop, fl, thorough, scratch, known, tier):
     text = emit_plan(root, binary, spec["prop"], fl["seed"], thorough)
     if not text.strip():
         return ("harness", "could not regenerate plan for seed %d" % fl["seed"])
+    # fault-enumeration checks: name the operation that ran under the injected failure (the step right
+    # before "oombus"), so that findings are identified by operation kind
+    opkind = ""
+    lines = text.splitlines()
+    for i, l in enumerate(lines):
+        if l.startswith("step oombus") and i > 0:
+            p = lines[i - 1].split(" ")
+            opkind = p[1] if len(p) > 1 else ""
+            if opkind in ("query", "send") and len(p) > 4:
+                opkind += ":" + (p[4] if opkind == "query" else "type" + p[3].split(",")[0])
+    # fault-enumeration checks: pin the failing allocation index so that replay and minimisation
+    # re-execute one run instead of the whole enumeration
+    mk = re.search(r"\[oom\.k=(-?\d+)\]", fl.get("detail", "") or "")
+    if mk and "cfg oom.enumerate 1" in text:
+        text = text.replace("cfg oom.enumerate 1", "cfg oom.enumerate 0\ncfg oom.k %s" % mk.group(1))
     os.makedirs(os.path.join(root, "replays"), exist_ok=True)
     ppath = os.path.join(scratch, "fail-%d.plan" % fl["seed"])
     with open(ppath, "w") as f:
@@ -361,6 +396,8 @@ def handle_failure(root, spec, prop, fl, thorough, scratch, known, tier):
         return ("harness", "failure of seed %d (%s) does not reproduce identically in fresh processes: %s/%s vs %s/%s"
                 % (fl["seed"], fl["cls"], r1["cls"], r1["hash"], r2["cls"], r2["hash"]))
     cls = r1["cls"]
+    optag = ("op=%s " % opkind) if opkind else ""
+    r1["detail"] = optag + (r1["detail"] or "")
     if cls in ("harness-error",):
         return ("harness", r1["detail"])
     vprop = prop_of_class(cls, spec.get("safety_prop", prop))
@@ -381,6 +418,7 @@ def handle_failure(root, spec, prop, fl, thorough, scratch, known, tier):
         # minimised plan is flaky: fall back to the original plan
         mtext, rm = text, run_plan(root, binary, ppath, scratch, want_log=True)
         steps = split_plan(text)[1]
+    rm["detail"] = optag + (rm["detail"] or "")
     k = match_known(known, vprop, cls, rm["detail"]) or k
     hist = ""
     for l in rm["log"].splitlines():
@@ -515,6 +553,7 @@ def write_evidence(root, prop, spec, tier, seed, agg, violations, knowns, wall, 
             "choice_points_exercised": choices,
             "oracle_items_matched_by_property": matched,
             "other_counters": other,
+            "runs_that_ended_in_a_failure_or_known_finding": agg.get("failed_runs", 0),
             "seed_derivation": "run seed = mix(VERIF_SEED, worker + i*workers); first seeds: %s" % agg["seeds_sample"],
             "workers": nworkers,
             "budget_s": budget,
